@@ -765,7 +765,13 @@ impl<'a> Interp<'a> {
                         return self.post(src, failed, &before, &before_bytes).map(|_| true);
                     }
                     let tc = rrtext::gen_valid(src, &TextOpts::default());
-                    let (text, expect_parse_ok, kind) = if want_fail && src.chance(128) {
+                    let (text, expect_parse_ok, kind) = if want_fail && src.chance(40) {
+                        // two records in one text: a complete valid record, a line break, then one that is
+                        // refused - the call must refuse the whole text and insert nothing
+                        let (t2, _) = rrtext::damage_text(src, &tc);
+                        let sep = *src.pick(&["\n", "\r\n", "\n\n"]);
+                        (format!("{}{}{}", tc.text.trim_end(), sep, t2), false, "valid-record-then-line-break-then-refused-record")
+                    } else if want_fail && src.chance(128) {
                         let (t, k) = rrtext::damage_text(src, &tc);
                         (t, false, k)
                     } else {
